@@ -453,6 +453,11 @@ func coverDocs(emit func(c01Case)) {
 						o := map[string]interface{}{"id": fmt.Sprintf("https://example.com/obj/%s/%d", kc.Type, n)}
 						if !kt.Typeless {
 							o["type"] = kt.Name
+						} else if n > 0 {
+							o["type"] = "Key" // an unknown member of a typeless object
+						}
+						if n > 0 {
+							o["x-nested-unknown"] = unknownProbe()
 						}
 						return o
 					}
